@@ -1,29 +1,42 @@
 /-
 C19 — Pareto-front identification and front ranking are exact.
-Property theorems only (helper lemmas live in Lemmas/ParetoLoop, ParetoVec, ParetoSet for the filter
-and the dominance predicate, Lemmas/ParetoDist, ParetoCols, ParetoGeo, ParetoSpec for the distances).
+Property theorems only (helper lemmas live in Lemmas/ParetoLoop, ParetoVec, ParetoSet, ParetoSpecMask,
+ParetoFirst, ParetoSigned for the filter and the dominance predicate, Lemmas/ParetoDist, ParetoCols,
+ParetoGeo, ParetoSpec, ParetoCopies, ParetoFast, ParetoDot for the transformations).
 
 Model: PybropsModel/Model/Pareto.lean (`efficientIdx`, `efficientMask` transcribe
 pybrops/core/util/pareto.py:is_pareto_efficient; `dominates` transcribes pymoo_addon.dominates;
-`transDistSq` transcribes the three distance-to-preference-vector transformations on squared
-distances; `geoDist` / `specDist` are the geometric definition and the Spec the driver evaluates;
+`transDistSq` is the common model of the three distance-to-preference-vector transformations on squared
+distances and `transDistCore` / `transDistProb` / `transDistFn` follow the three source copies statement by
+statement; `transDot`, `transSum*`, `latent*` are the other front-ranking transformations;
+`geoDist` / `specDist` are the geometric definition and the Spec, `geoDistFast` / `specDistFast` what the
+driver evaluates; `specMask`, `specIdx`, `specDominates` are the Spec oracles of sentences 1 and 2;
 `Pareto.Q.*` are the constants the driver executes).
 
-Sentence 1 of the property: `filter_sound`, `filter_complete`, `filter_indices`, `mask_eq_index`,
-`efficient_vectors_char`, `perm_invariant_set`, `rescale_invariant`.
+Sentence 1 of the property: `filter_sound`, `filter_complete`, `filter_indices`, `filter_loop_fuel_enough`,
+`mask_eq_index`, `efficient_vectors_char`, `efficientIdx_char` (index form exactly: maximal and first of its
+duplicates), `efficient_vectors_nodup`, `perm_invariant_set`, `perm_invariant_idx`, `perm_invariant_count`,
+`filter_single_objective`, `rescale_invariant`, `rescale_invariant_mask`, `rescale_objective_invariant`,
+`filter_sound_signed`, `filter_complete_signed` (negative weights = minimised objectives);
+Spec oracles: `spec_mask_iff`, `spec_mask_sound`, `spec_mask_determines_vectors`, `spec_idx_iff`, `spec_idx_sound`.
 Sentence 2 (dominance predicate): `dominates_feasible`, `dominates_feasible_eq_strictDom`,
 `dominates_infeasible(_iff)`, `dominates_feasibility_first`, `dominates_irrefl`, `dominates_asymm`,
-`dominates_trans`, `dominates_infeasible_total`, `dominates_infeasible_negtrans`.
+`dominates_trans`, `dominates_infeasible_total`, `dominates_infeasible_negtrans`;
+Spec oracle: `wantDominates_iff`, `spec_dominates_iff`, `spec_dominates_sound`.
 Sentence 3 (distances): equal their geometric definitions — `dist_geometric_def`,
 `dist_residual_orthogonal`, `dist_pythagoras`, `dist_nonneg`, `dist_zero_iff_on_line`,
-`dist_eq_geometric_def`, `scaled_in_unit_interval`, `scaled_constant_zero`; invariant to translation —
+`dist_eq_geometric_def`, `dist_three_copies_agree`, `dist_copies_eq_geometric_def`,
+`dist_core_rejects_negative_preference`, `scaled_in_unit_interval`, `scaled_constant_zero`; invariant to translation —
 `dist_translation_invariant` (and to positive rescaling: `dist_rescale_invariant`,
 `dist_sign_flip_counterexample`); finite when an objective is constant — `dist_finite_when_constant`,
 `dist_finite_one_per_point`, against `dist_prerepair_nan_of_constant` / `…_counterexample` (D13, repaired).
-Spec oracle: `spec_dist_sound`, `spec_dist_rejects`.  Section `Q`: the same statements on the driver's constants.
+Spec oracle: `spec_dist_sound`, `spec_dist_rejects`, `spec_dist_iff`, `geo_dist_fast_eq`, `spec_dist_fast_eq`.
+Other front-ranking transformations: `trans_dot_geometric_def`, `trans_dot_translation`, `trans_dot_monotone`,
+`trans_dot_argmax_efficient`, `trans_sum_eq_dot_ones`.
+Section `Q`: the same statements on the driver's constants.
 -/
-import PybropsModel.Lemmas.ParetoSet
-import PybropsModel.Lemmas.ParetoSpec
+import PybropsModel.Lemmas.ParetoDot
+import PybropsModel.Lemmas.ParetoSigned
 set_option linter.unusedSectionVars false
 set_option autoImplicit false
 
@@ -89,6 +102,16 @@ theorem filter_indices (fmat : List (List α)) (wt : List α) :
     rw [List.zipIdx_eq_zip_range', List.map_snd_zip (by simp), List.range_eq_range', List.length_map]
   rw [hr] at this
   exact this
+
+/-- **The `while` loop terminates within `npt` iterations**: any fuel `≥ npt` gives the same result as the
+    fuel `npt` the model uses (the literal index-juggling loop equals the two-list recursion). -/
+theorem filter_loop_fuel_enough (fmat : List (List α)) (wt : List α) (fuel : Nat)
+    (h : (rows fmat wt).length ≤ fuel) :
+    (loop fuel (rows fmat wt) 0).map Prod.fst = efficientIdx fmat wt := by
+  rw [efficientIdx_eq]
+  have := loop_eq_paretoGo fuel [] (rows fmat wt) h
+  simp only [List.nil_append, List.length_nil] at this
+  rw [this]
 
 /-- **Mask and index forms agree.** -/
 theorem mask_eq_index (fmat : List (List α)) (wt : List α) (i : Nat) (hi : i < fmat.length) :
@@ -170,6 +193,237 @@ theorem perm_invariant_set (fmat fmat' : List (List α)) (wt : List α) (hp : fm
   · rintro ⟨h1, h2⟩; exact ⟨(hm v).mp h1, fun u hu => h2 u ((hm u).mpr hu)⟩
   · rintro ⟨h1, h2⟩; exact ⟨(hm v).mpr h1, fun u hu => h2 u ((hm u).mp hu)⟩
 
+
+/-- every index of the input is its own weighted row (bridge between indices and vectors) -/
+theorem mem_weighted_iff (fmat : List (List α)) (wt : List α) (u : List α) :
+    u ∈ fmat.map (applyWt wt) ↔ ∃ i, i < fmat.length ∧ u = wrow fmat wt i := by
+  simp only [List.mem_map, wrow]
+  constructor
+  · rintro ⟨r, hr, rfl⟩
+    obtain ⟨i, hi, rfl⟩ := List.mem_iff_getElem.mp hr
+    exact ⟨i, hi, by simp [List.getD_eq_getElem?_getD, List.getElem?_eq_getElem hi]⟩
+  · rintro ⟨i, hi, rfl⟩
+    exact ⟨fmat[i], List.getElem_mem hi, by simp [List.getD_eq_getElem?_getD, List.getElem?_eq_getElem hi]⟩
+
+/-- **Index form, exactly.**  Index `i` is returned iff its weighted vector is maximal (nothing is at
+    least as good everywhere without being equal) and `i` is the FIRST point carrying that vector:
+    the index form is a function of the point list, duplicates are represented by their first occurrence. -/
+theorem efficientIdx_char (fmat : List (List α)) (wt : List α) (hrect : ∀ r ∈ fmat, r.length = wt.length) (i : Nat) :
+    i ∈ efficientIdx fmat wt ↔
+      (i < fmat.length ∧
+       (∀ j, j < fmat.length → weakDom (wrow fmat wt i) (wrow fmat wt j) = true →
+          weakDom (wrow fmat wt j) (wrow fmat wt i) = true) ∧
+       (∀ j, j < i → wrow fmat wt j ≠ wrow fmat wt i)) := by
+  obtain ⟨h1, _, h3⟩ := filter_facts fmat wt hrect
+  have fwd : ∀ i, i ∈ efficientIdx fmat wt →
+      (i < fmat.length ∧
+       (∀ j, j < fmat.length → weakDom (wrow fmat wt i) (wrow fmat wt j) = true →
+          weakDom (wrow fmat wt j) (wrow fmat wt i) = true) ∧
+       (∀ j, j < i → wrow fmat wt j ≠ wrow fmat wt i)) := by
+    intro i hi
+    rw [efficientIdx_eq] at hi
+    obtain ⟨x, hx, rfl⟩ := List.mem_map.mp hi
+    obtain ⟨hlt, hxv⟩ := (mem_rows fmat wt x).mp (h1 x hx)
+    refine ⟨hlt, ?_, ?_⟩
+    · intro j hj hw
+      have hy : (j, wrow fmat wt j) ∈ rows fmat wt := (mem_rows fmat wt _).mpr ⟨hj, rfl⟩
+      have := h3 x hx _ hy (by show weakDom x.2 (wrow fmat wt j) = true; rw [hxv]; exact hw)
+      have : weakDom (wrow fmat wt j) x.2 = true := this
+      rw [hxv] at this
+      exact this
+    · intro j hj
+      have hy : (j, wrow fmat wt j) ∈ rows fmat wt := (mem_rows fmat wt _).mpr ⟨lt_trans hj hlt, rfl⟩
+      have := result_first fmat wt hrect x hx _ hy hj
+      rw [hxv] at this
+      exact this
+  constructor
+  · exact fwd i
+  · rintro ⟨hi, hmax, hfirst⟩
+    have hv : wrow fmat wt i ∈ effVecs fmat wt := by
+      rw [efficient_vectors_char fmat wt hrect]
+      refine ⟨(mem_weighted_iff fmat wt _).mpr ⟨i, hi, rfl⟩, ?_⟩
+      intro u hu hw
+      obtain ⟨j, hj, rfl⟩ := (mem_weighted_iff fmat wt u).mp hu
+      exact hmax j hj hw
+    obtain ⟨i0, hi0, hv0⟩ := List.mem_map.mp hv
+    rcases lt_trichotomy i0 i with hlt | heq | hgt
+    · exact absurd hv0 (hfirst i0 hlt)
+    · rw [← heq]; exact hi0
+    · exact absurd hv0.symm ((fwd i0 hi0).2.2 i hgt)
+
+/-- the efficient vectors are listed without repetition (one index per distinct vector) -/
+theorem efficient_vectors_nodup (fmat : List (List α)) (wt : List α) (hrect : ∀ r ∈ fmat, r.length = wt.length) :
+    (effVecs fmat wt).Nodup := by
+  unfold effVecs
+  have hnd : (efficientIdx fmat wt).Nodup := (filter_indices fmat wt).nodup List.nodup_range
+  refine List.Nodup.map_on ?_ hnd
+  intro a ha b hb hab
+  rcases lt_trichotomy a b with h | h | h
+  · exact absurd hab (((efficientIdx_char fmat wt hrect b).mp hb).2.2 a h)
+  · exact h
+  · exact absurd hab.symm (((efficientIdx_char fmat wt hrect a).mp ha).2.2 b h)
+
+/-- **Order independence, index form** (sets of indices modulo duplicates): after any permutation of the
+    points every efficient index has a counterpart carrying the same weighted vector … -/
+theorem perm_invariant_idx (fmat fmat' : List (List α)) (wt : List α) (hp : fmat.Perm fmat')
+    (hrect : ∀ r ∈ fmat, r.length = wt.length) (i : Nat) (hi : i ∈ efficientIdx fmat wt) :
+    ∃ i' ∈ efficientIdx fmat' wt, wrow fmat' wt i' = wrow fmat wt i := by
+  have hv : wrow fmat wt i ∈ effVecs fmat wt := List.mem_map.mpr ⟨i, hi, rfl⟩
+  rw [perm_invariant_set fmat fmat' wt hp hrect] at hv
+  obtain ⟨i', hi', hv'⟩ := List.mem_map.mp hv
+  exact ⟨i', hi', hv'⟩
+
+/-- … and the number of efficient indices does not depend on the order of the points -/
+theorem perm_invariant_count (fmat fmat' : List (List α)) (wt : List α) (hp : fmat.Perm fmat')
+    (hrect : ∀ r ∈ fmat, r.length = wt.length) :
+    (efficientIdx fmat wt).length = (efficientIdx fmat' wt).length := by
+  have hrect' : ∀ r ∈ fmat', r.length = wt.length := fun r hr => hrect r (hp.mem_iff.mpr hr)
+  have h := (List.perm_ext_iff_of_nodup (efficient_vectors_nodup fmat wt hrect)
+    (efficient_vectors_nodup fmat' wt hrect')).mpr (fun v => perm_invariant_set fmat fmat' wt hp hrect v)
+  have := h.length_eq
+  simpa [effVecs] using this
+
+/-- **Single objective.**  With one objective the filter returns exactly one index (for a non-empty
+    input): the first point attaining the maximum of the weighted objective. -/
+theorem filter_single_objective (fmat : List (List α)) (w : α) (hrect : ∀ r ∈ fmat, r.length = 1) :
+    (∀ i ∈ efficientIdx fmat [w], ∀ j, j < fmat.length → weakDom (wrow fmat [w] j) (wrow fmat [w] i) = true) ∧
+    (∀ i ∈ efficientIdx fmat [w], ∀ i' ∈ efficientIdx fmat [w], i = i') ∧
+    (fmat ≠ [] → efficientIdx fmat [w] ≠ []) := by
+  have hrect' : ∀ r ∈ fmat, r.length = [w].length := by simpa using hrect
+  have hlen1 : ∀ j, j < fmat.length → (wrow fmat [w] j).length = 1 := by
+    intro j hj
+    have := rows_length_eq fmat [w] hrect' (j, wrow fmat [w] j) ((mem_rows fmat [w] _).mpr ⟨hj, rfl⟩)
+    simpa using this
+  have hmax : ∀ i ∈ efficientIdx fmat [w], ∀ j, j < fmat.length →
+      weakDom (wrow fmat [w] j) (wrow fmat [w] i) = true := by
+    intro i hi j hj
+    obtain ⟨hil, hm, _⟩ := (efficientIdx_char fmat [w] hrect' i).mp hi
+    by_cases hji : weakDom (wrow fmat [w] j) (wrow fmat [w] i) = true
+    · exact hji
+    · apply hm j hj
+      rw [weakDom_iff]
+      intro k h1 h2
+      have hk : k = 0 := by have := hlen1 i hil; omega
+      subst hk
+      by_contra hle
+      apply hji
+      rw [weakDom_iff]
+      intro k h1' h2'
+      have hk : k = 0 := by have := hlen1 i hil; omega
+      subst hk
+      exact (not_le.mp hle).le
+  refine ⟨hmax, ?_, ?_⟩
+  · intro i hi i' hi'
+    obtain ⟨hil, _, hf⟩ := (efficientIdx_char fmat [w] hrect' i).mp hi
+    obtain ⟨hil', _, hf'⟩ := (efficientIdx_char fmat [w] hrect' i').mp hi'
+    have heq : wrow fmat [w] i = wrow fmat [w] i' :=
+      weakDom_antisymm _ _ ((hlen1 i hil).trans (hlen1 i' hil').symm) (hmax i' hi' i hil) (hmax i hi i' hil')
+    rcases lt_trichotomy i i' with h | h | h
+    · exact absurd heq (hf' i h)
+    · exact h
+    · exact absurd heq.symm (hf i' h)
+  · intro hne h0
+    have hpos : 0 < fmat.length := List.length_pos_iff.mpr hne
+    have hni : 0 ∉ efficientIdx fmat [w] := by rw [h0]; simp
+    obtain ⟨j, hj, _⟩ := filter_complete fmat [w] hrect' 0 hpos hni
+    rw [h0] at hj
+    simp at hj
+
+/-! ### the Spec oracles of the filter decide exactly the property's first sentence -/
+
+/-- **Spec ⇔ Prop (mask).**  `Pareto.specMask` (driver op `c19.spec_pareto`) accepts a claimed mask iff it has
+    one entry per point, no marked point is strictly dominated by any point (sound) and every unmarked
+    point is equalled or dominated by a marked one (complete). -/
+theorem spec_mask_iff (fmat : List (List α)) (wt : List α) (mask : List Bool) :
+    specMask fmat wt mask = true ↔
+      (mask.length = fmat.length ∧
+       (∀ i (hi : i < mask.length), mask[i] = true → ∀ j, j < fmat.length →
+          strictDom (wrow fmat wt j) (wrow fmat wt i) = false) ∧
+       (∀ i (hi : i < mask.length), mask[i] = false →
+          ∃ j, ∃ (hj : j < mask.length), mask[j] = true ∧ weakDom (wrow fmat wt i) (wrow fmat wt j) = true)) := by
+  unfold specMask
+  simp only [Bool.and_eq_true, beq_iff_eq, List.length_map]
+  constructor
+  · rintro ⟨⟨hl, hs⟩, hc⟩
+    exact ⟨hl, (specRowsSound_iff fmat wt mask hl).mp hs, (specRowsComplete_iff fmat wt mask hl).mp hc⟩
+  · rintro ⟨hl, hs, hc⟩
+    exact ⟨⟨hl, (specRowsSound_iff fmat wt mask hl).mpr hs⟩, (specRowsComplete_iff fmat wt mask hl).mpr hc⟩
+
+/-- **Spec soundness (mask).**  The Spec accepts the model's own mask, for every rectangular input. -/
+theorem spec_mask_sound (fmat : List (List α)) (wt : List α) (hrect : ∀ r ∈ fmat, r.length = wt.length) :
+    specMask fmat wt (efficientMask fmat wt) = true := by
+  rw [spec_mask_iff]
+  have hl := mask_length fmat wt
+  have hget : ∀ i (hi : i < (efficientMask fmat wt).length),
+      (efficientMask fmat wt)[i] = decide (i ∈ efficientIdx fmat wt) := by
+    intro i hi
+    have := mask_eq_index fmat wt i (hl ▸ hi)
+    rw [List.getElem?_eq_getElem hi] at this
+    exact Option.some.inj this
+  refine ⟨hl, ?_, ?_⟩
+  · intro i hi hm j hj
+    rw [hget i hi] at hm
+    exact filter_sound fmat wt hrect i (by simpa using hm) j hj
+  · intro i hi hm
+    rw [hget i hi] at hm
+    obtain ⟨j, hj, hw⟩ := filter_complete fmat wt hrect i (hl ▸ hi) (by simpa using hm)
+    have hjl : j < (efficientMask fmat wt).length := by
+      rw [hl]; exact List.mem_range.mp ((filter_indices fmat wt).subset hj)
+    exact ⟨j, hjl, by rw [hget j hjl]; simpa using hj, hw⟩
+
+/-- **The Spec pins down the efficient set.**  Any mask the Spec accepts marks exactly the efficient
+    objective vectors of the model (possibly marking several equal points): the Spec is neither
+    weaker nor stronger than "the set of efficient objective vectors is the set of maximal vectors". -/
+theorem spec_mask_determines_vectors (fmat : List (List α)) (wt : List α) (hrect : ∀ r ∈ fmat, r.length = wt.length)
+    (mask : List Bool) (h : specMask fmat wt mask = true) (v : List α) :
+    (∃ i, ∃ (hi : i < mask.length), mask[i] = true ∧ wrow fmat wt i = v) ↔ v ∈ effVecs fmat wt := by
+  obtain ⟨hl, hs, hc⟩ := (spec_mask_iff fmat wt mask).mp h
+  have hlenrow : ∀ i, i < fmat.length → (wrow fmat wt i).length = wt.length := fun i hi =>
+    rows_length_eq fmat wt hrect (i, wrow fmat wt i) ((mem_rows fmat wt _).mpr ⟨hi, rfl⟩)
+  constructor
+  · rintro ⟨i, hi, hm, rfl⟩
+    have hif : i < fmat.length := hl ▸ hi
+    rw [efficient_vectors_char fmat wt hrect]
+    refine ⟨(mem_weighted_iff fmat wt _).mpr ⟨i, hif, rfl⟩, ?_⟩
+    intro u hu hw
+    obtain ⟨j, hj, rfl⟩ := (mem_weighted_iff fmat wt u).mp hu
+    have hsd := hs i hi hm j hj
+    by_contra hne
+    have hne : weakDom (wrow fmat wt j) (wrow fmat wt i) = false := by simpa using hne
+    have := (strictDom_iff_weak (wrow fmat wt j) (wrow fmat wt i)
+      ((hlenrow j hj).trans (hlenrow i hif).symm)).mpr ⟨hw, hne⟩
+    rw [this] at hsd
+    exact Bool.noConfusion hsd
+  · intro hv
+    have hchar := (efficient_vectors_char fmat wt hrect v).mp hv
+    obtain ⟨i0, hi0, rfl⟩ := (mem_weighted_iff fmat wt v).mp hchar.1
+    have hi0m : i0 < mask.length := hl ▸ hi0
+    by_cases hm : mask[i0] = true
+    · exact ⟨i0, hi0m, hm, rfl⟩
+    · obtain ⟨j, hj, hmj, hw⟩ := hc i0 hi0m (by simpa using hm)
+      have hjf : j < fmat.length := hl ▸ hj
+      have hback := hchar.2 _ ((mem_weighted_iff fmat wt _).mpr ⟨j, hjf, rfl⟩) hw
+      exact ⟨j, hj, hmj, weakDom_antisymm _ _ ((hlenrow j hjf).trans (hlenrow i0 hi0).symm) hback hw⟩
+
+/-- **Spec ⇔ Prop (mask against index form).** -/
+theorem spec_idx_iff (n : Nat) (mask : List Bool) (idx : List Nat) :
+    specIdx n mask idx = true ↔
+      (mask.length = n ∧ (∀ i ∈ idx, i < n) ∧ idx.Nodup ∧ ∀ i (hi : i < mask.length), (mask[i] = true ↔ i ∈ idx)) :=
+  specIdx_iff n mask idx
+
+/-- **Spec soundness (mask against index form).** -/
+theorem spec_idx_sound (fmat : List (List α)) (wt : List α) :
+    specIdx fmat.length (efficientMask fmat wt) (efficientIdx fmat wt) = true := by
+  rw [spec_idx_iff]
+  have hl := mask_length fmat wt
+  refine ⟨hl, fun i hi => List.mem_range.mp ((filter_indices fmat wt).subset hi),
+    (filter_indices fmat wt).nodup List.nodup_range, ?_⟩
+  intro i hi
+  have := mask_eq_index fmat wt i (hl ▸ hi)
+  rw [List.getElem?_eq_getElem hi] at this
+  rw [Option.some.inj this]
+  simp
+
 end filter
 
 section rescale
@@ -217,6 +471,61 @@ theorem rescale_invariant (fmat : List (List α)) (wt cs : List α)
   apply List.map_congr_left
   intro p _
   rfl
+
+/-- … the same for the mask form … -/
+theorem rescale_invariant_mask (fmat : List (List α)) (wt cs : List α)
+    (hrect : ∀ r ∈ fmat, r.length = wt.length) (hcs : cs.length = wt.length)
+    (hpos : ∀ c ∈ cs, 0 < c) :
+    efficientMask fmat (List.zipWith (· * ·) wt cs) = efficientMask fmat wt := by
+  unfold efficientMask
+  rw [rescale_invariant fmat wt cs hrect hcs hpos]
+
+/-- … and for a positive rescaling of the objectives in the DATA (`fmat[:, j] * cs[j]`), whatever the
+    signs of the weights (maximised and minimised objectives alike) -/
+theorem rescale_objective_invariant (fmat : List (List α)) (wt cs : List α)
+    (hrect : ∀ r ∈ fmat, r.length = wt.length) (hcs : cs.length = wt.length)
+    (hpos : ∀ c ∈ cs, 0 < c) :
+    efficientIdx (fmat.map (fun r => List.zipWith (· * ·) r cs)) wt = efficientIdx fmat wt := by
+  rw [← rescale_invariant fmat wt cs hrect hcs hpos]
+  unfold efficientIdx
+  simp only [List.map_map]
+  have e : (applyWt wt ∘ fun r => List.zipWith (· * ·) r cs) = applyWt (List.zipWith (· * ·) wt cs) := by
+    funext r
+    simp only [Function.comp, applyWt]
+    apply List.ext_getElem
+    · simp only [List.length_zipWith]; omega
+    · intro i h1 h2
+      simp only [List.getElem_zipWith]
+      ring
+  rw [e]
+
+/-- **Soundness in the original objectives** (positive weight = maximised, negative weight = minimised,
+    zero weight = ignored): no point is at least as good as a marked point in every weighted objective
+    and strictly better in one. -/
+theorem filter_sound_signed (fmat : List (List α)) (wt : List α) (hrect : ∀ r ∈ fmat, r.length = wt.length)
+    (i : Nat) (hi : i ∈ efficientIdx fmat wt) (j : Nat) (hj : j < fmat.length) :
+    ¬ (asGood wt (fmat.getD j []) (fmat.getD i []) ∧ betterSomewhere wt (fmat.getD j []) (fmat.getD i [])) := by
+  have hil : i < fmat.length := List.mem_range.mp ((filter_indices fmat wt).subset hi)
+  have hlen : ∀ k, k < fmat.length → (fmat.getD k []).length = wt.length := by
+    intro k hk
+    apply hrect
+    rw [List.getD_eq_getElem?_getD, List.getElem?_eq_getElem hk]; simp
+  have h := filter_sound fmat wt hrect i hi j hj
+  rw [← weighted_strictDom_signed wt _ _ (hlen j hj) (hlen i hil)]
+  show ¬ strictDom (wrow fmat wt j) (wrow fmat wt i) = true
+  rw [h]; simp
+
+/-- **Completeness in the original objectives.** -/
+theorem filter_complete_signed (fmat : List (List α)) (wt : List α) (hrect : ∀ r ∈ fmat, r.length = wt.length)
+    (i : Nat) (hi : i < fmat.length) (hni : i ∉ efficientIdx fmat wt) :
+    ∃ j ∈ efficientIdx fmat wt, asGood wt (fmat.getD j []) (fmat.getD i []) := by
+  have hlen : ∀ k, k < fmat.length → (fmat.getD k []).length = wt.length := by
+    intro k hk
+    apply hrect
+    rw [List.getD_eq_getElem?_getD, List.getElem?_eq_getElem hk]; simp
+  obtain ⟨j, hj, hw⟩ := filter_complete fmat wt hrect i hi hni
+  have hjl : j < fmat.length := List.mem_range.mp ((filter_indices fmat wt).subset hj)
+  exact ⟨j, hj, (weighted_weakDom_signed wt _ _ (hlen i hi) (hlen j hjl)).mp hw⟩
 
 end rescale
 
@@ -384,6 +693,96 @@ theorem dominates_infeasible_negtrans (o1 o2 o3 : List α) (c1 c2 c3 : α) (h1 :
   exact not_lt.mpr ((not_lt.mp h23).trans (not_lt.mp h12))
 
 end dom2
+
+/-! ### the Spec oracle of the dominance predicate -/
+section domspec
+variable {α : Type} [LinearOrder α] [Zero α]
+
+/-- the order the property's second sentence describes: feasible points (violation `≤ 0`) by Pareto
+    dominance of the minimised objectives, a feasible point before every infeasible one, infeasible
+    points by smaller violation -/
+def DomOrder (o1 : List α) (c1 : α) (o2 : List α) (c2 : α) : Prop :=
+  (c1 ≤ 0 ∧ c2 ≤ 0 ∧ (∀ k (h1 : k < o1.length) (h2 : k < o2.length), o1[k] ≤ o2[k]) ∧
+      ∃ k, ∃ (h1 : k < o1.length) (h2 : k < o2.length), o1[k] < o2[k]) ∨
+  (c1 ≤ 0 ∧ 0 < c2) ∨
+  (0 < c1 ∧ 0 < c2 ∧ c1 < c2)
+
+theorem wantDominates_iff (o1 o2 : List α) (c1 c2 : α) :
+    wantDominates o1 c1 o2 c2 = true ↔ DomOrder o1 c1 o2 c2 := by
+  unfold wantDominates DomOrder
+  by_cases h1 : 0 < c1 <;> by_cases h2 : 0 < c2
+  · have d1 : decide (0 < c1) = true := decide_eq_true h1
+    have d2 : decide (0 < c2) = true := decide_eq_true h2
+    rw [d1, d2]
+    simp only [decide_eq_true_eq]
+    constructor
+    · intro h; exact Or.inr (Or.inr ⟨h1, h2, h⟩)
+    · rintro (⟨h, _⟩ | ⟨h, _⟩ | ⟨_, _, h⟩)
+      · exact absurd h (not_le.mpr h1)
+      · exact absurd h (not_le.mpr h1)
+      · exact h
+  · have d1 : decide (0 < c1) = true := decide_eq_true h1
+    have d2 : decide (0 < c2) = false := decide_eq_false h2
+    rw [d1, d2]
+    constructor
+    · intro h; exact Bool.noConfusion h
+    · rintro (⟨h, _⟩ | ⟨h, _⟩ | ⟨_, h, _⟩)
+      · exact absurd h (not_le.mpr h1)
+      · exact absurd h (not_le.mpr h1)
+      · exact absurd h h2
+  · have d1 : decide (0 < c1) = false := decide_eq_false h1
+    have d2 : decide (0 < c2) = true := decide_eq_true h2
+    rw [d1, d2]
+    constructor
+    · intro _; exact Or.inr (Or.inl ⟨not_lt.mp h1, h2⟩)
+    · intro _; rfl
+  · have d1 : decide (0 < c1) = false := decide_eq_false h1
+    have d2 : decide (0 < c2) = false := decide_eq_false h2
+    rw [d1, d2]
+    show strictDom o2 o1 = true ↔ _
+    rw [strictDom_iff, weakDom_iff]
+    constructor
+    · rintro ⟨ha, k, hk2, hk1, hlt⟩
+      exact Or.inl ⟨not_lt.mp h1, not_lt.mp h2, ha, k, hk1, hk2, hlt⟩
+    · rintro (⟨_, _, ha, k, hk1, hk2, hlt⟩ | ⟨_, h⟩ | ⟨h, _⟩)
+      · exact ⟨ha, k, hk2, hk1, hlt⟩
+      · exact absurd h h2
+      · exact absurd h h1
+
+/-- **Spec ⇔ Prop (dominance).**  `Pareto.specDominates` (driver op `c19.spec_dominates`) accepts a claimed
+    answer iff the answer is `true` exactly when point 1 precedes point 2 in `DomOrder`. -/
+theorem spec_dominates_iff (o1 o2 : List α) (c1 c2 : α) (claimed : Bool) :
+    specDominates o1 c1 o2 c2 claimed = true ↔ (claimed = true ↔ DomOrder o1 c1 o2 c2) := by
+  unfold specDominates
+  rw [← wantDominates_iff, beq_iff_eq]
+  cases claimed <;> cases wantDominates o1 c1 o2 c2 <;> simp
+
+/-- **Spec soundness (dominance).**  The model's predicate is the four-way case split of the Spec, hence
+    the Spec accepts it and `dominates` decides `DomOrder`. -/
+theorem spec_dominates_sound (o1 o2 : List α) (c1 c2 : α) :
+    dominates o1 c1 o2 c2 = wantDominates o1 c1 o2 c2 ∧
+    specDominates o1 c1 o2 c2 (dominates o1 c1 o2 c2) = true ∧
+    (dominates o1 c1 o2 c2 = true ↔ DomOrder o1 c1 o2 c2) := by
+  have key : dominates o1 c1 o2 c2 = wantDominates o1 c1 o2 c2 := by
+    unfold wantDominates
+    by_cases h1 : 0 < c1 <;> by_cases h2 : 0 < c2
+    · rw [decide_eq_true h1, decide_eq_true h2]
+      exact dominates_infeasible o1 o2 c1 c2 (fun h => absurd h.1 (not_le.mpr h1))
+    · rw [decide_eq_true h1, decide_eq_false h2]
+      rw [dominates_infeasible o1 o2 c1 c2 (fun h => absurd h.1 (not_le.mpr h1))]
+      simp only [decide_eq_false_iff_not, not_lt]
+      exact le_trans (not_lt.mp h2) h1.le
+    · rw [decide_eq_false h1, decide_eq_true h2]
+      rw [dominates_infeasible o1 o2 c1 c2 (fun h => absurd h.2 (not_le.mpr h2))]
+      simp only [decide_eq_true_eq]
+      exact lt_of_le_of_lt (not_lt.mp h1) h2
+    · rw [decide_eq_false h1, decide_eq_false h2]
+      exact dominates_feasible_eq_strictDom o1 o2 c1 c2 (not_lt.mp h1) (not_lt.mp h2)
+  refine ⟨key, ?_, ?_⟩
+  · unfold specDominates; rw [key]; simp
+  · rw [key]; exact wantDominates_iff o1 o2 c1 c2
+
+end domspec
 
 /-! ### the distance-to-preference-vector transformations
 
@@ -622,7 +1021,157 @@ theorem spec_dist_rejects (rel abs_ : α) (mat : List (List α)) (sign line : Li
     (specDist rel abs_ mat sign line d2 = true → d2.length = mat.length) :=
   ⟨specDist_none rel abs_ mat sign line d2, specDist_length rel abs_ mat sign line d2⟩
 
+/-- **The three source copies agree.**  The statement-by-statement transcriptions of
+    `core/util/trans.py:trans_ndpt_pseudo_dist(mat, sign, line)`,
+    `sel/prob/trans.py:trans_ndpt_to_vec_dist(mat, line, sign)` and
+    `sel/transfn.py:trans_ndpt_to_vec_dist(mat, line, sign)` (argument orders of the sources) compute the
+    same squared distances as the common model, for every matrix (the last two also for every
+    preference vector; the first one `assert`s that it is non-negative with a positive entry). -/
+theorem dist_three_copies_agree (mat : List (List α)) (sign line : List α)
+    (hnn : ∀ x ∈ line, 0 ≤ x) (hpos : ∃ x ∈ line, 0 < x) :
+    transDistCore mat sign line = transDistSq true mat sign line ∧
+    transDistProb mat line sign = transDistSq true mat sign line ∧
+    transDistFn mat line sign = transDistSq true mat sign line :=
+  ⟨transDistCore_eq mat sign line hnn hpos, transDistProb_eq mat line sign, transDistFn_eq mat line sign⟩
+
+/-- each copy equals the geometric definition (rectangular front, at least one objective) -/
+theorem dist_copies_eq_geometric_def (mat : List (List α)) (sign line : List α)
+    (hrect : ∀ r ∈ mat, r.length = sign.length) (hn : 0 < sign.length)
+    (hnn : ∀ x ∈ line, 0 ≤ x) (hpos : ∃ x ∈ line, 0 < x) :
+    transDistCore mat sign line = some (geoDist mat sign line) ∧
+    transDistProb mat line sign = some (geoDist mat sign line) ∧
+    transDistFn mat line sign = some (geoDist mat sign line) := by
+  have hll : Np.dot line line ≠ 0 := by
+    obtain ⟨x, hx, hp⟩ := hpos
+    exact pref_vector_dot_ne_zero line ⟨x, hx, ne_of_gt hp⟩
+  obtain ⟨h1, h2, h3⟩ := dist_three_copies_agree mat sign line hnn hpos
+  rw [h1, h2, h3]
+  exact ⟨dist_eq_geometric_def mat sign line hrect hn hll, dist_eq_geometric_def mat sign line hrect hn hll,
+    dist_eq_geometric_def mat sign line hrect hn hll⟩
+
+/-- the core copy rejects (AssertionError, `none`) a preference vector with a negative entry -/
+theorem dist_core_rejects_negative_preference (mat : List (List α)) (sign line : List α) (h : ∃ x ∈ line, x < 0) :
+    transDistCore mat sign line = none :=
+  transDistCore_rejects_negative mat sign line h
+
+/-- the linear-time evaluation the driver runs is the geometric definition, and so is its Spec -/
+theorem geo_dist_fast_eq (mat : List (List α)) (sign line : List α) :
+    geoDistFast mat sign line = geoDist mat sign line := geoDistFast_eq mat sign line
+
+theorem spec_dist_fast_eq (rel abs_ : α) (mat : List (List α)) (sign line : List α) (d2 : List (Option α)) :
+    specDistFast rel abs_ mat sign line d2 = specDist rel abs_ mat sign line d2 :=
+  specDistFast_eq rel abs_ mat sign line d2
+
+/-- **Spec ⇔ Prop (distances).**  `Pareto.specDist` accepts claimed squared distances iff there is one per
+    point, each is a number (not NaN / inf) and each is within the tolerance rule of the geometric definition. -/
+theorem spec_dist_iff (rel abs_ : α) (mat : List (List α)) (sign line : List α) (d2 : List (Option α)) :
+    specDist rel abs_ mat sign line d2 = true ↔
+      (d2.length = mat.length ∧
+       ∀ i (hi : i < d2.length), ∃ x, d2[i] = some x ∧
+         closeTol rel abs_ x ((geoDist mat sign line).getD i 0) = true) := by
+  have hwl : (geoDist mat sign line).length = mat.length := by simp [geoDist]
+  unfold specDist
+  simp only [Bool.and_eq_true, beq_iff_eq, List.all_eq_true]
+  constructor
+  · rintro ⟨⟨_, hl⟩, hz⟩
+    refine ⟨hl.trans hwl, ?_⟩
+    intro i hi
+    have hiw : i < (geoDist mat sign line).length := hl ▸ hi
+    have := hz (d2[i], (geoDist mat sign line)[i]) (by
+      rw [List.mem_iff_getElem]
+      exact ⟨i, by simp [hi, hiw], by simp⟩)
+    simp only at this
+    cases hd : d2[i] with
+    | none => rw [hd] at this; exact Bool.noConfusion this
+    | some x =>
+      rw [hd] at this
+      refine ⟨x, rfl, ?_⟩
+      rw [List.getD_eq_getElem?_getD, List.getElem?_eq_getElem hiw]
+      exact this
+  · rintro ⟨hl, hz⟩
+    have hl' : d2.length = (geoDist mat sign line).length := hl.trans hwl.symm
+    refine ⟨⟨?_, hl'⟩, ?_⟩
+    · intro o ho
+      obtain ⟨i, hi, rfl⟩ := List.mem_iff_getElem.mp ho
+      obtain ⟨x, hx, _⟩ := hz i hi
+      rw [hx]; rfl
+    · rintro ⟨o, w⟩ hp
+      obtain ⟨i, hi, heq⟩ := List.mem_iff_getElem.mp hp
+      simp only [List.length_zip, lt_min_iff] at hi
+      simp only [List.getElem_zip, Prod.mk.injEq] at heq
+      obtain ⟨x, hx, hc⟩ := hz i hi.1
+      rw [List.getD_eq_getElem?_getD, List.getElem?_eq_getElem hi.2] at hc
+      simp only
+      rw [← heq.1, ← heq.2, hx]
+      exact hc
+
 end dist
+
+/-! ### the other front-ranking transformations (`transfn.trans_dot`, `transfn.trans_sum`) -/
+section wsum
+variable {α : Type} [Field α] [LinearOrder α] [IsStrictOrderedRing α]
+
+/-- **Weighted sum = geometric definition.**  `trans_dot(mat, wt)[i]` is the dot product of point `i`
+    with `wt`; it equals the dot product of the point's orthogonal projection on the weight vector
+    with `wt`, i.e. `‖wt‖²` times the coordinate of the projection along `wt`. -/
+theorem trans_dot_geometric_def (mat : List (List α)) (wt : List α) (hww : vdot wt wt ≠ 0) :
+    transDot mat wt = mat.map (fun p => vdot p wt) ∧
+    transDot mat wt = mat.map (fun p => vdot (proj wt p) wt) ∧
+    transDot mat wt = mat.map (fun p => (vdot p wt / vdot wt wt) * vdot wt wt) := by
+  have h1 := transDot_eq mat wt
+  refine ⟨h1, ?_, ?_⟩
+  · rw [h1]
+    apply List.map_congr_left
+    intro p _
+    unfold proj
+    rw [vdot_smul_left, div_mul_cancel₀ _ hww]
+  · rw [h1]
+    apply List.map_congr_left
+    intro p _
+    rw [div_mul_cancel₀ _ hww]
+
+/-- translating the front by `t` adds the constant `t·wt` to every score: the ranking is unchanged -/
+theorem trans_dot_translation (mat : List (List α)) (t wt : List α) (hrect : ∀ r ∈ mat, r.length = t.length) :
+    transDot (mat.map (fun r => List.zipWith (· + ·) r t)) wt = (transDot mat wt).map (fun s => s + vdot t wt) := by
+  rw [transDot_eq, transDot_eq, List.map_map, List.map_map]
+  apply List.map_congr_left
+  intro r hr
+  simp only [Function.comp]
+  exact vdot_add_left r t wt (hrect r hr)
+
+/-- the weighted sum respects Pareto dominance: non-negative weights never rank a weakly dominated
+    point higher, positive weights rank a strictly dominated point strictly lower -/
+theorem trans_dot_monotone (a b wt : List α) (hlen : a.length = b.length) :
+    ((∀ x ∈ wt, 0 ≤ x) → weakDom a b = true → Np.dot a wt ≤ Np.dot b wt) ∧
+    ((∀ x ∈ wt, 0 < x) → wt.length = a.length → strictDom b a = true → Np.dot a wt < Np.dot b wt) := by
+  rw [np_dot_eq, np_dot_eq]
+  constructor
+  · intro hw h
+    exact vdot_le_of_le a b wt hlen hw ((weakDom_iff a b).mp h)
+  · intro hw hlw h
+    obtain ⟨hwd, k, h1, h2, hlt⟩ := (strictDom_iff b a).mp h
+    exact vdot_lt_of_lt a b wt hlen hlw hw ((weakDom_iff a b).mp hwd) ⟨k, h2, h1, hlt⟩
+
+/-- a point that maximises a positively weighted sum over the front is Pareto efficient -/
+theorem trans_dot_argmax_efficient (mat : List (List α)) (wt : List α) (hrect : ∀ r ∈ mat, r.length = wt.length)
+    (hpos : ∀ x ∈ wt, 0 < x) (p : List α) (hp : p ∈ mat) (hmax : ∀ q ∈ mat, Np.dot q wt ≤ Np.dot p wt) :
+    ∀ q ∈ mat, strictDom q p = false := by
+  intro q hq
+  by_contra hne
+  have hs : strictDom q p = true := by simpa using hne
+  have := (trans_dot_monotone p q wt ((hrect p hp).trans (hrect q hq).symm)).2 hpos (hrect p hp).symm hs
+  exact absurd (hmax q hq) (not_le.mpr this)
+
+/-- `trans_sum(mat, axis=1)` is the weighted sum with unit weights -/
+theorem trans_sum_eq_dot_ones (mat : List (List α)) (n : Nat) (hrect : ∀ r ∈ mat, r.length = n) :
+    transSumAxis1 mat = transDot mat (List.replicate n 1) := by
+  rw [transDot_eq]
+  unfold transSumAxis1
+  apply List.map_congr_left
+  intro r hr
+  rw [np_sum_eq, ← hrect r hr, vdot_replicate_one]
+
+end wsum
 
 
 /-! ### the theorems apply to exactly the functions the driver runs
@@ -703,6 +1252,67 @@ theorem Q_spec_dist_sound (rel abs_ : ℚ) (mat : List (List ℚ)) (sign line : 
     Q.specDist rel abs_ mat sign line (out.map some) = true :=
   spec_dist_sound (α := ℚ) rel abs_ mat sign line hrect hn hll out h
 
+theorem Q_efficientIdx_char (fmat : List (List ℚ)) (wt : List ℚ) (hrect : ∀ r ∈ fmat, r.length = wt.length) (i : Nat) :
+    i ∈ Q.efficientIdx fmat wt ↔
+      (i < fmat.length ∧
+       (∀ j, j < fmat.length → Q.weakDom (Q.applyWt wt (fmat.getD i [])) (Q.applyWt wt (fmat.getD j [])) = true →
+          Q.weakDom (Q.applyWt wt (fmat.getD j [])) (Q.applyWt wt (fmat.getD i [])) = true) ∧
+       (∀ j, j < i → Q.applyWt wt (fmat.getD j []) ≠ Q.applyWt wt (fmat.getD i []))) :=
+  efficientIdx_char (α := ℚ) fmat wt hrect i
+
+theorem Q_perm_invariant_count (fmat fmat' : List (List ℚ)) (wt : List ℚ) (hp : fmat.Perm fmat')
+    (hrect : ∀ r ∈ fmat, r.length = wt.length) :
+    (Q.efficientIdx fmat wt).length = (Q.efficientIdx fmat' wt).length :=
+  perm_invariant_count (α := ℚ) fmat fmat' wt hp hrect
+
+/-- the Spec ops of the driver accept what the model ops of the driver return -/
+theorem Q_spec_mask_sound (fmat : List (List ℚ)) (wt : List ℚ) (hrect : ∀ r ∈ fmat, r.length = wt.length) :
+    Q.specMask fmat wt (Q.efficientMask fmat wt) = true ∧
+    Pareto.specIdx fmat.length (Q.efficientMask fmat wt) (Q.efficientIdx fmat wt) = true :=
+  ⟨spec_mask_sound (α := ℚ) fmat wt hrect, spec_idx_sound (α := ℚ) fmat wt⟩
+
+theorem Q_spec_mask_determines_vectors (fmat : List (List ℚ)) (wt : List ℚ) (hrect : ∀ r ∈ fmat, r.length = wt.length)
+    (mask : List Bool) (h : Q.specMask fmat wt mask = true) (v : List ℚ) :
+    (∃ i, ∃ (hi : i < mask.length), mask[i] = true ∧ Q.applyWt wt (fmat.getD i []) = v) ↔
+      v ∈ (Q.efficientIdx fmat wt).map (fun i => Q.applyWt wt (fmat.getD i [])) :=
+  spec_mask_determines_vectors (α := ℚ) fmat wt hrect mask h v
+
+theorem Q_spec_dominates_sound (o1 o2 : List ℚ) (c1 c2 : ℚ) :
+    Q.specDominates o1 c1 o2 c2 (Q.dominates o1 c1 o2 c2) = true ∧
+    (Q.dominates o1 c1 o2 c2 = true ↔ DomOrder o1 c1 o2 c2) :=
+  ⟨(spec_dominates_sound (α := ℚ) o1 o2 c1 c2).2.1, (spec_dominates_sound (α := ℚ) o1 o2 c1 c2).2.2⟩
+
+theorem Q_dist_three_copies_agree (mat : List (List ℚ)) (sign line : List ℚ)
+    (hnn : ∀ x ∈ line, 0 ≤ x) (hpos : ∃ x ∈ line, 0 < x) :
+    Q.transDistCore mat sign line = Q.transDistSq true mat sign line ∧
+    Q.transDistProb mat line sign = Q.transDistSq true mat sign line ∧
+    Q.transDistFn mat line sign = Q.transDistSq true mat sign line :=
+  dist_three_copies_agree (α := ℚ) mat sign line hnn hpos
+
+/-- the Spec the driver runs (`specDistFast`) is the Spec of the theorems (`specDist`), and accepts the
+    answers of all three transcriptions -/
+theorem Q_spec_dist_fast_sound (rel abs_ : ℚ) (mat : List (List ℚ)) (sign line : List ℚ)
+    (hrect : ∀ r ∈ mat, r.length = sign.length) (hn : 0 < sign.length)
+    (hnn : ∀ x ∈ line, 0 ≤ x) (hpos : ∃ x ∈ line, 0 < x) (d2 : List (Option ℚ)) :
+    Q.specDistFast rel abs_ mat sign line d2 = Q.specDist rel abs_ mat sign line d2 ∧
+    (∀ out, Q.transDistCore mat sign line = some out → Q.specDistFast rel abs_ mat sign line (out.map some) = true) ∧
+    (∀ out, Q.transDistProb mat line sign = some out → Q.specDistFast rel abs_ mat sign line (out.map some) = true) ∧
+    (∀ out, Q.transDistFn mat line sign = some out → Q.specDistFast rel abs_ mat sign line (out.map some) = true) := by
+  have hll : Np.dot line line ≠ 0 := by
+    obtain ⟨x, hx, hp⟩ := hpos
+    exact pref_vector_dot_ne_zero (α := ℚ) line ⟨x, hx, ne_of_gt hp⟩
+  obtain ⟨h1, h2, h3⟩ := dist_three_copies_agree (α := ℚ) mat sign line hnn hpos
+  have key : ∀ out, Pareto.transDistSq true mat sign line = some out →
+      Pareto.specDistFast rel abs_ mat sign line (out.map some) = true := by
+    intro out h
+    rw [spec_dist_fast_eq]
+    exact spec_dist_sound (α := ℚ) rel abs_ mat sign line hrect hn hll out h
+  refine ⟨spec_dist_fast_eq (α := ℚ) rel abs_ mat sign line d2, ?_, ?_, ?_⟩
+  · intro out h; exact key out (h1 ▸ h)
+  · intro out h; exact key out (h2 ▸ h)
+  · intro out h; exact key out (h3 ▸ h)
+
+
 /-- D13 on the driver's functions, evaluated by the kernel: NaN before the repair, finite after -/
 theorem Q_dist_prerepair_nan_counterexample :
     Q.transDistSq false [[1, 2], [2, 2], [0, 2]] [1, 1] [1, 1] = none ∧
@@ -764,5 +1374,63 @@ example : Pareto.Q.transDistSq true [[0, 10], [1, 12], [4, 18], [2, 14]] [1, 1] 
 example : Pareto.Q.transDistSq true [[3], [5], [4]] [-1] [2] = some [0, 0, 0] := by decide +kernel
 example : Pareto.Q.dominates [1, 2] 1 [0, 0] 2 = true ∧ Pareto.Q.dominates [0, 0] 2 [1, 2] 1 = false ∧
     Pareto.Q.dominates [1, 2] 2 [0, 0] 2 = false ∧ Pareto.Q.dominates [0, 0] 2 [1, 2] 2 = false := by decide +kernel
+
+/- round 3: index characterisation, Spec oracles, the three transcriptions, weighted sums -/
+example : (1 ∈ efficientIdx (α := Int) [[1, 2], [2, 1], [1, 1], [2, 1], [0, 3]] [1, 1]) ∧
+    (3 ∉ efficientIdx (α := Int) [[1, 2], [2, 1], [1, 1], [2, 1], [0, 3]] [1, 1]) ∧
+    wrow (α := Int) [[1, 2], [2, 1], [1, 1], [2, 1], [0, 3]] [1, 1] 3 = wrow [[1, 2], [2, 1], [1, 1], [2, 1], [0, 3]] [1, 1] 1 := by
+  decide
+example : (effVecs (α := Int) [[1, 2], [2, 1], [1, 1], [2, 1], [0, 3]] [1, 1]).Nodup := by decide
+example : ([[1, 2], [2, 1], [1, 1]] : List (List Int)).Perm [[1, 1], [1, 2], [2, 1]] ∧
+    (efficientIdx (α := Int) [[1, 2], [2, 1], [1, 1]] [1, 1]).length = (efficientIdx (α := Int) [[1, 1], [1, 2], [2, 1]] [1, 1]).length := by
+  decide
+example : efficientIdx (α := Int) [[3], [5], [4], [5]] [1] = [1] ∧ efficientIdx (α := Int) [[3], [5], [4], [3]] [-2] = [0] := by decide
+-- the Spec accepts the model's mask, also a mask marking BOTH equal points, and rejects an incomplete / an unsound one
+example : specMask (α := Int) [[1, 2], [2, 1], [1, 1], [2, 1], [0, 3]] [1, 1] [true, true, false, false, true] = true ∧
+    specMask (α := Int) [[1, 2], [2, 1], [1, 1], [2, 1], [0, 3]] [1, 1] [true, true, false, true, true] = true ∧
+    specMask (α := Int) [[1, 2], [2, 1], [1, 1], [2, 1], [0, 3]] [1, 1] [true, false, false, false, true] = false ∧
+    specMask (α := Int) [[1, 2], [2, 1], [1, 1], [2, 1], [0, 3]] [1, 1] [true, true, true, false, true] = false ∧
+    specMask (α := Int) [[1, 2], [2, 1], [1, 1], [2, 1], [0, 3]] [1, 1] [true, true, false, false] = false := by decide
+example : specIdx 5 [true, true, false, false, true] [0, 1, 4] = true ∧ specIdx 5 [true, true, false, false, true] [4, 1, 0] = true ∧
+    specIdx 5 [true, true, false, false, true] [0, 1] = false ∧ specIdx 5 [true, true, false, false, true] [0, 1, 4, 4] = false ∧
+    specIdx 5 [true, true, false, false, true] [0, 1, 4, 5] = false := by decide
+-- integer-valued objectives with a fractional weight (the class of change C19-b1): all three points efficient
+example : Pareto.Q.efficientIdx [[1, 3], [2, 2], [3, 1]] [1, 1/4] = [0, 1, 2] ∧
+    Pareto.Q.efficientIdx [[1, 3], [2, 2], [3, 1]] [1, 0] = [2] := by decide +kernel
+-- weights with a negative entry read in the original objectives: second objective minimised
+example : asGood (α := ℚ) [1, -1] [2, 1] [1, 3] ∧ betterSomewhere (α := ℚ) [1, -1] [2, 1] [1, 3] := by
+  refine ⟨?_, 0, by simp, Or.inl (by norm_num)⟩
+  intro k hk
+  have : k = 0 ∨ k = 1 := by simp at hk; omega
+  rcases this with rfl | rfl <;> norm_num
+-- a tiny positive violation is a violation (the class of change C19-b3)
+example : Pareto.Q.dominates [1, 1] 0 [1, 1] (1/1000000000) = true ∧
+    Pareto.Q.wantDominates [1, 1] 0 [1, 1] (1/1000000000) = true ∧
+    Pareto.Q.dominates [2, 2] (1/1000000000) [1, 1] (5/1000000000) = true ∧
+    Pareto.Q.dominates [0, 0] (1/1000000000) [1, 1] 0 = false ∧
+    Pareto.Q.specDominates [0, 0] (1/1000000000) [1, 1] 0 true = false := by decide +kernel
+example : DomOrder (α := ℚ) [1, 2] 0 [1, 3] (-1) := by
+  left
+  refine ⟨le_refl _, by norm_num, ?_, 1, by simp, by simp, by norm_num⟩
+  intro k h1 h2
+  have : k = 0 ∨ k = 1 := by simp at h1; omega
+  rcases this with rfl | rfl <;> norm_num
+-- the three transcriptions on a front with a constant objective, argument orders of the sources
+example : Pareto.Q.transDistCore [[5, 2], [7, 2], [6, 2]] [1, -1] [1, 2] = some [0, 4/5, 1/5] ∧
+    Pareto.Q.transDistProb [[5, 2], [7, 2], [6, 2]] [1, 2] [1, -1] = some [0, 4/5, 1/5] ∧
+    Pareto.Q.transDistFn [[5, 2], [7, 2], [6, 2]] [1, 2] [1, -1] = some [0, 4/5, 1/5] ∧
+    Pareto.Q.transDistCore [[5, 2], [7, 2], [6, 2]] [1, -1] [1, -2] = none ∧
+    Pareto.Q.transDistProb [[5, 2], [7, 2], [6, 2]] [0, 0] [1, -1] = none := by decide +kernel
+example : (∀ x ∈ ([1, 2] : List ℚ), 0 ≤ x) ∧ (∃ x ∈ ([1, 2] : List ℚ), 0 < x) :=
+  ⟨by intro x hx; simp at hx; rcases hx with rfl | rfl <;> norm_num, 1, by simp, by norm_num⟩
+example : Pareto.Q.geoDistFast [[5, 2], [7, 2], [6, 2]] [1, -1] [1, 2] = [0, 4/5, 1/5] ∧
+    Pareto.Q.specDistFast (1/1000000000) (1/1000000000000) [[5, 2], [7, 2], [6, 2]] [1, -1] [1, 2]
+      [some 0, some (4/5), some (1/4)] = false := by decide +kernel
+example : Pareto.Q.transDot [[1, 2], [2, 1], [1/2, 0]] [1, -2] = [-3, 0, 1/2] ∧
+    Pareto.Q.transSumAxis1 [[1, 2], [2, 1], [1/2, 0]] = [3, 3, 1/2] ∧
+    Pareto.Q.transSumAxis0 [[1, 2], [2, 1], [1/2, 0]] = [7/2, 3] ∧ Pareto.Q.transSumAll [[1, 2], [2, 1], [1/2, 0]] = 13/2 ∧
+    Pareto.Q.latentSum [1, 2, 1/2] = [7/2] ∧ Pareto.Q.latentDot [1, 2, 1/2] [2, -1, 4] = [2] := by decide +kernel
+example : vdot ([1, 2] : List ℚ) [1, 2] ≠ 0 ∧ (∀ x ∈ ([1, 2] : List ℚ), 0 < x) :=
+  ⟨by norm_num [vdot], by intro x hx; simp at hx; rcases hx with rfl | rfl <;> norm_num⟩
 
 end C19
